@@ -2,7 +2,7 @@
 is outside the core model —, harness/props/c10_reload.py."""
 from harness.corecheck import make
 from harness.props import c10_reload
-PARTS = [make("C10", ["CircusProofs/Props/C10.lean", "CircusProofs/Props/C10Wake.lean"],
+PARTS = [make("C10", ["CircusProofs/Props/C10.lean", "CircusProofs/Props/C10Wake.lean", "CircusProofs/Props/C10Fail.lean"],
               ["CircusProofs/Core/Pres.lean", "CircusProofs/Core/Generic.lean", "CircusProofs/Core/SlotFree.lean",
-               "CircusProofs/Core/SlotInv.lean", "CircusProofs/Core/WakeAttr.lean", "CircusProofs/Core/WakeDefs.lean", "CircusProofs/Core/WakePrim.lean", "CircusProofs/Core/WakeInv.lean", "CircusProofs/Core/WakeHeld.lean"]),
+               "CircusProofs/Core/SlotInv.lean", "CircusProofs/Core/WakeAttr.lean", "CircusProofs/Core/WakeDefs.lean", "CircusProofs/Core/WakePrim.lean", "CircusProofs/Core/WakeInv.lean", "CircusProofs/Core/WakeHeld.lean", "CircusProofs/Core/StopRunE.lean"]),
          c10_reload]
